@@ -1,3 +1,3 @@
 From Coq Require Import ExtrOcamlBasic ZArith.
-From CppUVerif Require Import C06_Model C06_Plug.
-Extraction "c06_model.ml" C06_Plug.prun C06_Plug.pspec C06_Plug.pvalid BinInt.Z.of_N.
+From CppUVerif Require Import C06_Model C06_Plug C06_Edge.
+Extraction "c06_model.ml" C06_Plug.prun C06_Plug.pspec C06_Plug.pvalid C06_Edge.erun C06_Edge.espec C06_Edge.evalid C06_Edge.yrun C06_Edge.yspec C06_Edge.yvalid BinInt.Z.of_N.
